@@ -46,7 +46,7 @@ def check_find(rep, F, cfg):
         rep.lost("T-FIND", "T-FIND/branch" + tag, "loop body is if <indexed> {..} else {..}", show(top)[:80])
         return
     cond = show(top["cond"])
-    rep.check(cond == "(<impl str>::ends_with(k, ]) && <impl str>::contains(k, [))", "T-FIND", "T-FIND/index-test" + tag, top["sp"], "a segment is indexed iff it ends with ']' and contains '['", cond)
+    rep.check(cond == "(<impl str>::ends_with(k, ']') && <impl str>::contains(k, '['))", "T-FIND", "T-FIND/index-test" + tag, top["sp"], "a segment is indexed iff it ends with ']' and contains '['", cond)
     idx_b, plain_b = top["then"], top["else"]
 
     # ---- STEP-TOTAL
@@ -123,7 +123,7 @@ def check_find(rep, F, cfg):
         c1 = F.fn("value::Object::find::{closure#1}")
         s0 = show(c0.body) if c0 else ""
         s1 = show(c1.body) if c1 else ""
-        oki = oki and s0 == "<impl str>::strip_suffix(i, ])" and s1 == "<T, E>::ok(<impl str>::parse(i))" and c1 is not None and any("usize" in (x.get("gen") or [""])[0] for x in walk(c1.body) if call_is(x, "::parse"))
+        oki = oki and s0 == '<impl str>::strip_suffix(i, "]")' and s1 == "<T, E>::ok(<impl str>::parse(i))" and c1 is not None and any("usize" in (x.get("gen") or [""])[0] for x in walk(c1.body) if call_is(x, "::parse"))
         rep.check(oki, "INDEX", "INDEX/parse" + tag, ii["sp"], "i = parts.next() stripped of ']' parsed as usize; failure => None", "%s | %s | %s" % (chain[:80], s0, s1))
         # failure of the parse returns None (either `?` or an explicit match)
         init = peel(ii["init"])
